@@ -75,6 +75,8 @@ let dump_tables () =
   let id = !cur_id in
   let gi = match !cur_gi with Some g -> g | None -> failwith "no grammar" in
   Printf.printf "%s nullable %s\n" id (ints (List.sort compare (List.map int_of_nat (nullable_list gi.gi_rules))));
+  (* the hypotheses of the back-end theorems, as one boolean check on the grammar object (WfGrammar.wf_gi) *)
+  Printf.printf "%s wfcheck %d\n" id (if wf_gi gi then 1 else 0);
   match get_tabs () with
   | Inl (EUnproductive l) -> Printf.printf "%s error unproductive %s\n" id (ints (List.map int_of_nat l))
   | Inl ETooManyStates -> Printf.printf "%s error toomanystates\n" id
@@ -108,6 +110,8 @@ let dump_dense () =
   let id = !cur_id in
   let gi = match !cur_gi with Some g -> g | None -> failwith "no grammar" in
   Printf.printf "%s nullable %s\n" id (ints (List.sort compare (List.map int_of_nat (nullable_list gi.gi_rules))));
+  (* the hypotheses of the back-end theorems, as one boolean check on the grammar object (WfGrammar.wf_gi) *)
+  Printf.printf "%s wfcheck %d\n" id (if wf_gi gi then 1 else 0);
   match generate_dense gi with
   | Inl (EUnproductive l) -> Printf.printf "%s error unproductive %s\n" id (ints (List.map int_of_nat l))
   | Inl ETooManyStates -> Printf.printf "%s error toomanystates\n" id
